@@ -1198,6 +1198,43 @@ class Exploration:
         self.complete = True
 
 
+PATH_START_HOOKS: List[Callable[[], None]] = []   # run before every path of explore (state the code keeps besides the modelled tables)
+
+
+def class_scratch(cls: Any, skip: Sequence[str] = ("_known", "_by_name", "_by_symbol")) -> Dict[str, Any]:
+    """Plain data kept in class attributes (a remembered last result, a counter): not functions, not
+    descriptors, not the modelled tables."""
+    import types as _t
+
+    out = {}
+    for k, v in vars(cls).items():
+        if k.startswith("__") or k in skip:
+            continue
+        if isinstance(v, (_t.FunctionType, classmethod, staticmethod, property, type)) or callable(v) or \
+                hasattr(v, "__get__"):
+            continue
+        out[k] = v
+    return out
+
+
+def restore_class_scratch(cls: Any, snap: Dict[str, Any]) -> List[str]:
+    """Put the class's plain data attributes back; returns the names that had changed."""
+    changed = []
+    now = class_scratch(cls)
+    for k, v in now.items():
+        if k not in snap:
+            type.__delattr__(cls, k)
+            changed.append(k)
+        elif snap[k] is not v:
+            type.__setattr__(cls, k, snap[k])
+            changed.append(k)
+    for k, v in snap.items():
+        if k not in now:
+            type.__setattr__(cls, k, v)
+            changed.append(k)
+    return changed
+
+
 def explore(fn: Callable[[], Any], *, assumptions: Sequence[z3.BoolRef] = (),
             max_paths: int = 512, query_timeout_ms: int = 10000) -> Exploration:
     """Run `fn` (which builds its own proxies from named z3 variables and calls the
@@ -1209,6 +1246,8 @@ def explore(fn: Callable[[], Any], *, assumptions: Sequence[z3.BoolRef] = (),
     try:
         while True:
             c.reset_path()
+            for hook in PATH_START_HOOKS:
+                hook()
             for a in assumptions:
                 c.assume(a)
             exc: Optional[BaseException] = None
